@@ -1718,7 +1718,7 @@ class HasRounds(GenericHandler):
         """
         # XXX: could precalculate output of this in using() method, and save per-hash cost.
         #      but then users patching cls.vary_rounds / cls.default_rounds would get wrong value.
-        assert default_rounds
+        assert default_rounds is not None  # (0 is a legal cost for some hashes)
         vary_rounds = cls.vary_rounds
 
         # if vary_rounds specified as % of default, convert it to actual rounds
